@@ -98,6 +98,8 @@ def check(run):
     gi.key = "meth:composeinfo.VariantBase.__getitem__"
     verify.verify(run, c.E, gi, crosscheck=False)
     verify.verify(run, c.E, c.contracts["meth:composeinfo.VariantBase.get_variants"])
+    # child arches are a subset of the parent's: the validator's scan over arch sets of ARBITRARY size (witness rule)
+    verify.verify(run, c.E, c.contracts["scan:composeinfo.Variant._validate_parent_arch"], crosscheck=False)
     # the forest after a write/read cycle is the forest that was written (C01 lemma), so the clauses above carry over to re-loaded forests
     verify.verify(run, c.E, c.contracts["rt:composeinfo.Variants:0"], only=("top_level_variants_reproduced", "child_reproduced_under_its_parent",
                                                                            "no_other_children"), crosscheck=False)
